@@ -122,6 +122,22 @@ func c07Queries(thorough bool) []c07Q {
 	for _, lo := range [][3]int{{1, -1, 1}, {1, 1, 1}, {-1, 1, 1}} {
 		out = append(out, c07Q{&qQuery{items: []qItem{{kind: "col", col: qRef{"", "g1"}}, {kind: "count*"}}, from: from, groupBy: []qRef{{"", "g1"}}, orderBy: []qSort{{qRef{"", "g1"}, ""}}, limit: lo[0], offset: lo[1], limitFirst: true}, "group-by+order+limit"})
 	}
+	// GROUP BY with LIMIT / OFFSET and no ORDER BY: whichever groups come back, each is a whole group
+	for _, items := range [][]qItem{
+		{{kind: "col", col: qRef{"", "g1"}}, {kind: "count*"}},
+		{{kind: "col", col: qRef{"", "g2"}}, {kind: "count", col: qRef{"", "v"}}, {kind: "count*"}},
+		{{kind: "count*"}, {kind: "col", col: qRef{"", "g1"}}, {kind: "col", col: qRef{"", "g2"}}},
+	} {
+		var gb []qRef
+		for _, it := range items {
+			if it.kind == "col" {
+				gb = append(gb, it.col)
+			}
+		}
+		for _, lo := range [][3]int{{1, -1, 1}, {2, -1, 1}, {1, 1, 1}, {-1, 1, 1}, {1, 0, 0}} {
+			out = append(out, c07Q{&qQuery{items: items, from: from, groupBy: gb, limit: lo[0], offset: lo[1], limitFirst: lo[2] == 1}, "group-by+limit"})
+		}
+	}
 	// explicit grouping: 1..2 grouping columns (distinct base columns) in every position among 1..2 aggregates
 	base := func(g gcol) string { return g.item.col.name }
 	for gi, ga := range gcols {
